@@ -211,5 +211,10 @@ class MaybeRepairForce(Spec):
                 ("check-and-repair-never-forces", z3.BoolVal(all(f is False for f in calls)))]
 
 
+def extra_checks(rep, tier):
+    from contracts import grid_mutable
+    grid_mutable.grid_check(rep, tier, "C14")
+
+
 def contracts(tier):
     return [MakeCheckerResults(), RepairDecision(), MaybeRepairForce()]
